@@ -745,7 +745,9 @@ theorem eval_preserves : ∀ (e : Expr) (Γ : TEnv) (env : Env α) (log : Log α
       · intro r hr
         obtain ⟨v, l⟩ := r
         rw [hr] at ihs
-        exact evalArms_preserves arms Γ env l v ts τ ht ihs he
+        split at ht
+        · exact evalArms_preserves arms Γ env l v ts τ ht ihs he
+        · cases ht
       · intro v l hr; rw [hr] at ihs; exact ihs
     · cases ht
   | .block stmts tail, Γ, env, log, τ, ht, he => by
@@ -933,7 +935,10 @@ theorem evalStmts_preserves : ∀ (ss : List Stmt) (Γ : TEnv) (env : Env α) (l
       cases hbt : p.bindTy tcx.it t with
       | none => simp [hbt] at ht
       | some bt =>
-        simp only [hbt, Option.map] at ht
+        cases htot : p.total tcx.it t with
+        | false => simp [htot] at ht
+        | true =>
+        simp only [hbt, htot, if_true, Option.map] at ht
         have ih := eval_preserves e Γ env log t hte he
         simp only [evalStmts]
         refine bind_cases (P := EnvResOK tcx.it tcx.ret Γ') _ _ ?_ ?_ trivial trivial trivial
